@@ -2406,7 +2406,7 @@ atten_analytic(vh::Rng& rng, bool thorough, int round)
                       if (!pn->parse(is))
                         throw std::runtime_error("parse");
                       n = pn;
-                      rname = "parsed(";
+                      rname = "parsed(text parameters";
                     }
                   rname += with_fwd ? ", matrix projector)" : ", no projector given)";
                   if (n->set_up(g.exam, g.pdi) != Succeeded::yes)
